@@ -143,7 +143,8 @@ fn dump_function(f: &ObjFunction, out: &mut Vec<FunctionDump>) -> usize {
         arity: f.arity,
         upvalue_count: f.upvalue_count,
         code: chunk.code.clone(),
-        lines: chunk.lines.clone(),
+        // (whatever integer type the line table uses)
+        lines: chunk.lines.iter().map(|l| *l as i32).collect(),
         constants,
         code_addr: chunk.code.as_ptr() as usize,
     };
